@@ -221,7 +221,11 @@ impl Planner {
                 continue;
             }
             let extra = gi >= corpus.extra_from;
+            let fallback_witness = e.id == "J0" || e.id == "J1";
+            let bulk8 = e.id.starts_with('J') && !fallback_witness;
             let reps = match (thorough, extra) {
+                _ if fallback_witness => if thorough { 200 } else { 16 },
+                _ if bulk8 => 0,
                 (false, false) => 8,
                 (false, true) => 0,
                 (true, false) => 200,
@@ -447,7 +451,11 @@ impl Planner {
             let known = kplus[gi];
             let expect = if known { Expect::Torus } else { Expect::Unknown };
             let extra = gi >= corpus.extra_from;
+            let fallback_witness = e.id == "J0" || e.id == "J1";
+            let bulk8 = e.id.starts_with('J') && !fallback_witness;
             let (bv, cs, keys) = match (thorough, known, extra) {
+                _ if fallback_witness => if thorough { (2, 100, 2) } else { (1, 8, 2) },
+                _ if bulk8 => (1, 1, 1),
                 (false, _, true) => (1, 1, 1),
                 (true, _, true) => (1, 12, 1),
                 (false, false, false) => (1, 3, 2),
